@@ -50,11 +50,11 @@ Lemma check_inv : forall cache reference android ref l10n issues cache',
      then process_android uesc
             (sax_text (sax (doc_value (reflist ++ missing_names reflist l10nlist) (e_val l10n))))
      else Ok []) = Ok andr /\
-    match l10n_error (reflist ++ missing_names reflist l10nlist) l10n with
-    | Some (line, col, msg) =>
-        exists p, error_position (e_val l10n) line col = Ok p /\ e_l10n = [var_issue y_xmlparse p msg]
-    | None => e_l10n = []
-    end /\
+    e_l10n =
+      match l10n_error (reflist ++ missing_names reflist l10nlist) l10n with
+      | Some (line, col, msg) => [var_issue y_xmlparse (error_position (e_val l10n) line col) msg]
+      | None => []
+      end /\
     issues = enc ++ w_ref_of reflist ref ++ e_l10n ++
              map (unknown_issue (warn_suffix reflist inContext)) (missing_names reflist l10nlist) ++
              w_mismatch_of inContext l10nlist (missing_names reflist l10nlist) ++
@@ -65,19 +65,10 @@ Proof.
   apply bind_ok in H. destruct H as [[reflist c'] [Hk H]].
   apply bind_ok in H. destruct H as [inContext [Hctx H]].
   apply bind_ok in H. destruct H as [l10nlist [Hl H]].
-  apply bind_ok in H. destruct H as [e_l10n [He H]].
   apply bind_ok in H. destruct H as [style [Hs H]].
   apply bind_ok in H. destruct H as [andr [Ha H]].
   inversion H; subst. clear H.
-  exists enc, reflist, inContext, l10nlist, e_l10n, style, andr.
-  repeat split; try assumption.
-  unfold l10n_error.
-  destruct (match sax_err (sax (doc_value (reflist ++ missing_names reflist l10nlist) (e_val l10n))) with
-            | Some e => Some e
-            | None => sax_err (sax (doc_decl (reflist ++ missing_names reflist l10nlist) l10n))
-            end) as [[[line col] msg]|].
-  - apply bind_ok in He. destruct He as [p [Hp He]]. inversion He. eauto.
-  - inversion He. reflexivity.
+  do 7 eexists. repeat split; try eassumption; reflexivity.
 Qed.
 End Shape.
 
